@@ -267,3 +267,5 @@ value drv_run(value argv, value opts)
 }
 
 value drv_pattern(value src, value off) { return Val_int(sim_pattern(Long_val(src), Long_val(off))); }
+
+value drv_heap_check(value unit) { sim_heap_check(); return Val_unit; }
